@@ -18,12 +18,12 @@ type Scn struct {
 	Prefer  bool     `json:"prefer_json"`
 	MhType  string   `json:"mh_type,omitempty"`
 	CidType string   `json:"cid_type,omitempty"`
-	Client  bool     `json:"client"`           // the request is exactly what client.Find sends for Mh
-	Mh      string   `json:"mh,omitempty"`     // hex multihash given to client.Find
-	Accept  []string `json:"accept"`           // Accept header values (raw requests); null = absent
-	Path    string   `json:"path_hex"`         // r.URL.Path bytes (raw requests)
+	Client  bool     `json:"client"`       // the request is exactly what client.Find sends for Mh
+	Mh      string   `json:"mh,omitempty"` // hex multihash given to client.Find
+	Accept  []string `json:"accept"`       // Accept header values (raw requests); null = absent
+	Path    string   `json:"path_hex"`     // r.URL.Path bytes (raw requests)
 	Results []ResJ   `json:"results"`
-	Key     string   `json:"key,omitempty"`    // good | bad | none: what the generator knows about the path/key
+	Key     string   `json:"key,omitempty"`     // good | bad | none: what the generator knows about the path/key
 	WantMh  string   `json:"want_mh,omitempty"` // hex, when Key == good
 	Form    string   `json:"form,omitempty"`
 }
